@@ -80,7 +80,92 @@ func casePackage() NamedCase {
 		}}
 }
 
+// Mutually recursive named types (reflect.StructOf cannot build these): the protected leaves sit in a type that is
+// reached again through a second type which has no string or byte field of its own.
+
+type ReqA struct {
+	Session *SessB // declared before the first string field of ReqA
+	N       int
+	Token   string `class:"secret"`
+	Body    []byte `class:"sensitive"`
+}
+
+type SessB struct {
+	Hits     int
+	OpenedBy *ReqA
+}
+
+func caseRecursive2() NamedCase {
+	return NamedCase{"mutually recursive ReqA -> SessB -> ReqA (secret, sensitive leaves at both levels)",
+		func(tag string) (interface{}, map[string]string) {
+			return &ReqA{Session: &SessB{Hits: 3, OpenedBy: &ReqA{N: 2, Token: Value(tag, "InnerToken"), Body: []byte(Value(tag, "InnerBody"))}}, N: 1,
+					Token: Value(tag, "Token"), Body: []byte(Value(tag, "Body"))},
+				map[string]string{"Token": "secret", "Body": "sensitive", "InnerToken": "secret", "InnerBody": "sensitive"}
+		},
+		func(p interface{}) map[string]string {
+			r := p.(*ReqA)
+			m := map[string]string{"Token": r.Token, "Body": string(r.Body)}
+			if r.Session != nil && r.Session.OpenedBy != nil {
+				m["InnerToken"], m["InnerBody"] = r.Session.OpenedBy.Token, string(r.Session.OpenedBy.Body)
+			}
+			return m
+		}}
+}
+
+type NodeX struct {
+	Next  []*NodeY // a slice of pointers to the second type, before the string field
+	Label string   `class:"sensitive"`
+	Note  string   `class:"public"`
+}
+
+type NodeY struct {
+	Weight float64
+	Back   map[string]*NodeZ
+}
+
+type NodeZ struct {
+	Flag bool
+	Up   *NodeX
+}
+
+func caseRecursive3() NamedCase {
+	return NamedCase{"three-type cycle NodeX -> []*NodeY -> map[string]*NodeZ -> *NodeX (sensitive and public leaves)",
+		func(tag string) (interface{}, map[string]string) {
+			inner := &NodeX{Label: Value(tag, "InnerLabel"), Note: Value(tag, "InnerNote")}
+			return &NodeX{Next: []*NodeY{{Weight: 1.5, Back: map[string]*NodeZ{"k": {Flag: true, Up: inner}}}}, Label: Value(tag, "Label"), Note: Value(tag, "Note")},
+				map[string]string{"Label": "sensitive", "Note": "public", "InnerLabel": "sensitive", "InnerNote": "public"}
+		},
+		func(p interface{}) map[string]string {
+			r := p.(*NodeX)
+			m := map[string]string{"Label": r.Label, "Note": r.Note}
+			if len(r.Next) == 1 && r.Next[0] != nil && r.Next[0].Back["k"] != nil && r.Next[0].Back["k"].Up != nil {
+				m["InnerLabel"], m["InnerNote"] = r.Next[0].Back["k"].Up.Label, r.Next[0].Back["k"].Up.Note
+			}
+			return m
+		}}
+}
+
+// the same cycle entered at the type that has no leaf of its own
+func caseRecursiveEntry() NamedCase {
+	return NamedCase{"SessB -> ReqA -> SessB entered at the leafless type",
+		func(tag string) (interface{}, map[string]string) {
+			return &SessB{Hits: 1, OpenedBy: &ReqA{Session: &SessB{Hits: 2, OpenedBy: &ReqA{Token: Value(tag, "InnerToken")}}, Token: Value(tag, "Token"), Body: []byte(Value(tag, "Body"))}},
+				map[string]string{"Token": "secret", "Body": "sensitive", "InnerToken": "secret"}
+		},
+		func(p interface{}) map[string]string {
+			r := p.(*SessB)
+			m := map[string]string{}
+			if r.OpenedBy != nil {
+				m["Token"], m["Body"] = r.OpenedBy.Token, string(r.OpenedBy.Body)
+				if r.OpenedBy.Session != nil && r.OpenedBy.Session.OpenedBy != nil {
+					m["InnerToken"] = r.OpenedBy.Session.OpenedBy.Token
+				}
+			}
+			return m
+		}}
+}
+
 // NamedCases returns the catalogue.
 func NamedCases() []NamedCase {
-	return []NamedCase{casePackage(), caseLocal2(), caseLocal3(), caseLocal1()}
+	return []NamedCase{casePackage(), caseLocal2(), caseLocal3(), caseLocal1(), caseRecursive2(), caseRecursive3(), caseRecursiveEntry()}
 }
